@@ -208,11 +208,11 @@ def run_property(prop: str, tier: str) -> int:
             f"[{prop} {tier} seed={seed}] cases={agg['evaluations']} distinct_nontrivial={len(agg['fingerprints'])} "
             f"engine_calls={agg['tap_calls']} violations={len(violations)} known={len(known_hits)} wall={wall:.1f}s"
         )
+    for pr in problems:
+        print(f"INCONCLUSIVE property={prop} reason={pr[:600]}")
     if violations:
         return 1
     if problems:
-        for pr in problems:
-            print(f"INCONCLUSIVE property={prop} reason={pr[:600]}")
         return 2
     return 0
 
